@@ -1,9 +1,24 @@
-from checks import apifam
+from checks import apifam, concfam
 GUARDS = {"BoundHeapInsideArena", "ExclusiveStaysPrivate", "FullGivesNull", "ManagedBounds", "NoOverlap", "ContentsKept.gen", "ContentsKept.bytes",
           "LiveAccessible", "DestructiveAvoidsLive", "Invariant.Inv"}
 def run(tier, seed):
     envs = [None, {"MIMALLOC_PURGE_DELAY": "0"}, {"MIMALLOC_ARENA_RESERVE": "65536"}, {"MIMALLOC_DISALLOW_ARENA_ALLOC": "1"}]
-    return apifam.run_api("C15", tier, seed, profiles=["c15"], builds=["rel", "dbg", "sec"], own_guards=GUARDS, crash_decisive=True,
-                          gen=(0, 0), ops=(2500, 6000), maxlive=(250, 600), shim=True, envs=envs, extra_args=["--clock", "30"],
-                          assumptions=["arenas are regions mapped by the harness and handed to mi_manage_os_memory_ex at non-segment-aligned addresses with odd sizes; "
-                                       "the sequential part of C15 is covered here, adoption across thread exit by the C09 check"])
+    V, cov = apifam.run_api("C15", tier, seed, profiles=["c15"], builds=["rel", "dbg", "sec"], own_guards=GUARDS, crash_decisive=True,
+                          gen=(0, 0), ops=(2500, 6000), maxlive=(250, 600), shim=True, envs=envs, extra_args=["--clock", "30"], finish=False)
+    # adoption of abandoned memory: segments left behind in the exclusive arena / in ordinary memory are visited again and again by a
+    # thread whose heap does not fit them; shared-arena program with bound heaps on several threads
+    rof = {"MIMALLOC_ABANDONED_RECLAIM_ON_FREE": "1"}
+    jobs = [
+        {"prog": "adopt", "strategy": "random", "runs": (40, 500), "args": ["--rate", "3"]},
+        {"prog": "adopt", "strategy": "random", "runs": (30, 400), "args": ["--rate", "3"], "env": rof},
+        {"prog": "adopt", "strategy": "pct", "runs": (20, 300), "args": [], "env": {"MIMALLOC_MAX_SEGMENT_RECLAIM": "100"}},
+        {"prog": "arena", "strategy": "random", "runs": (40, 500), "args": ["--rate", "3"]},
+    ]
+    V, cov2 = concfam.run_conc("C15", tier, seed, jobs, GUARDS, mc=("MiAbandonMC", ("MiAbandon_mc.cfg", "MiAbandon_mc_thorough.cfg")), guided_progs=(), V=V, finish=False)
+    cov["adoption"] = {k: cov2[k] for k in ("traces_validated_against_impl", "trace_events_validated", "programs", "strategies")}
+    cov["traces_validated_against_impl"] += cov2["traces_validated_against_impl"]
+    cov["samples"] = cov["samples"] + cov2["samples"][:2]
+    return V.finish("model_checking", cov, assumptions=[
+        "arenas are regions mapped by the harness and handed to mi_manage_os_memory_ex at non-segment-aligned addresses with odd sizes",
+        "adoption: abandoned segments are revisited 8-12 times by an unsuitable heap (fresh-segment requests) before the size classes left behind are allocated from",
+        "TLC and harness measurements trusted; bounded MiApiMC constants; scheduled executions are SC interleavings"])
